@@ -54,4 +54,10 @@ PROPERTIES = {
         explanation="configuration validators (raise iff constraint violated), header resolution with frame, section lookup",
         assumptions=["schema validity is graphql-core's (assert_valid_schema); file system predicates are the OS's"],
     ),
+    "C09": dict(
+        modules=["contracts.c04_package", "contracts.c09_pruning"],
+        bounded=[_bounded.lazy("contracts.c09_pruning", "bounded_pruning")],
+        explanation="accumulation of used enums / inputs in the package orchestration and in InputTypesGenerator; closure (dfs) by bounded stand-in",
+        assumptions=["textual identity of retained definitions also depends on autoflake/isort/black (assumed)"],
+    ),
 }
